@@ -623,7 +623,7 @@ theorem step_minted (fixed : Bool) (s : State) (op : Op) (k : ClaimKey) (c : Cla
 theorem validateClaim_none (h : Int) (m : MsgClaim) (e : ClaimEnv) (hv : validateClaim h m e = none) :
     m.key.et ≠ 0 ∧ e.sessCtxOk = true ∧ ¬ (h ≤ m.key.sbh + e.sessB - 1) ∧ ¬ (m.total < e.minProofs) ∧
     e.chainSupported = true ∧ e.nodeFound = true ∧ e.appFound = true ∧ ¬ (e.maxRelays < m.total) ∧
-    e.chainsOverLimit = false ∧ e.sessionPre = none ∧ e.inSession = true ∧
+    e.chainsOverLimit = false ∧ e.sessionPre = none ∧ e.headerCanonical = true ∧ e.inSession = true ∧
     ¬ (h > e.curW * e.curB + m.key.sbh) := by
   unfold validateClaim at hv
   by_cases c1 : m.key.et = 0
@@ -658,23 +658,27 @@ theorem validateClaim_none (h : Int) (m : MsgClaim) (e : ClaimEnv) (hv : validat
     | some c => simp [c10] at hv
     | none =>
       simp only [c10] at hv
+      cases c10' : e.headerCanonical with
+      | false => simp [c10'] at hv
+      | true =>
+      simp only [c10', Bool.not_true, Bool.false_eq_true, if_false] at hv
       cases c11 : e.inSession with
       | false => simp [c11] at hv
       | true =>
         simp only [c11, Bool.not_true, Bool.false_eq_true, if_false] at hv
         by_cases c12 : h > e.curW * e.curB + m.key.sbh
         · rw [if_pos c12] at hv; cases hv
-        · exact ⟨c1, rfl, c3, c4, rfl, rfl, rfl, c8, rfl, rfl, rfl, c12⟩
+        · exact ⟨c1, rfl, c3, c4, rfl, rfl, rfl, c8, rfl, rfl, rfl, rfl, c12⟩
 
 theorem validateClaim_of_checks (h : Int) (m : MsgClaim) (e : ClaimEnv)
     (c1 : m.key.et ≠ 0) (c2 : e.sessCtxOk = true) (c3 : ¬ (h ≤ m.key.sbh + e.sessB - 1))
     (c4 : ¬ (m.total < e.minProofs)) (c5 : e.chainSupported = true) (c6 : e.nodeFound = true)
     (c7 : e.appFound = true) (c8 : ¬ (e.maxRelays < m.total)) (c9 : e.chainsOverLimit = false)
-    (c10 : e.sessionPre = none) (c11 : e.inSession = true) (c12 : ¬ (h > e.curW * e.curB + m.key.sbh)) :
+    (c10 : e.sessionPre = none) (c10' : e.headerCanonical = true) (c11 : e.inSession = true) (c12 : ¬ (h > e.curW * e.curB + m.key.sbh)) :
     validateClaim h m e = none := by
   unfold validateClaim
   rw [if_neg c1]
-  simp only [c2, c5, c6, c7, c9, c10, c11, Bool.not_true, Bool.false_eq_true, if_false, if_neg c3, if_neg c4,
+  simp only [c2, c5, c6, c7, c9, c10, c10', c11, Bool.not_true, Bool.false_eq_true, if_false, if_neg c3, if_neg c4,
     if_neg c8, if_neg c12]
 
 end Pocket
